@@ -6,7 +6,7 @@ import json, os, shutil, subprocess, sys, tempfile
 HERE = os.path.dirname(os.path.abspath(__file__)); VERIF = os.path.dirname(HERE)
 sys.path.insert(0, os.path.join(VERIF, "lib"))
 import props
-cat = json.load(open(os.path.join(HERE, "benign.json")))
+cat = json.load(open(os.path.join(HERE, "benign.json"))) + json.load(open(os.path.join(HERE, "benign2.json")))
 want = set(sys.argv[1:])
 tot = {0: 0, 1: 0, 2: 0}
 for m in cat:
